@@ -26,6 +26,13 @@
 // jobs run in two different orders in two more fresh processes; the result of every job must be
 // the same in all of them (the first run in a process must not fix anything for the later ones).
 //
+// Stream `h` (object history; harness/c08_history.hpp): a circuit object goes through a random history - placement
+// stages, const queries (report, computeRows, hpwl, toString), expandCellsToDensity on a copy and on the object, and
+// the public mutators (setSolution, setCellX/Y, setCellIsFixed/Obstruction, setRows, setupRows, setCellWidth/Height,
+// setCellOrientation, setCellRowPolarity, setNetWeights) - then a stage sequence runs on the object itself, on a twin
+// REBUILT through the public setters from the object's getters (a copy would inherit hidden state) and on a copy; the
+// three results must be bitwise equal: a circuit is what its accessors say, not what happened to the object before.
+//
 // Parameters cover the non-default box accepted by ColoquinteParameters::check():
 // nbInitialSteps > 0, nbStepsBeforeRoughLegalization, tolerances, penalty / continuous-model /
 // rough-legalization knobs, all net models and cost models (measured in the distribution).
@@ -224,8 +231,9 @@ static std::string stageRun(Circuit &c, char st, const ColoquinteParameters &p, 
   return "ok";
 }
 
-static RunResult runSeq(Circuit c, const std::string &seq, const ColoquinteParameters &p, bool observe, Force force = Force::None,
-                        uint64_t rnd = 0) {
+// runs the stages on the object itself
+static RunResult runSeqOn(Circuit &c, const std::string &seq, const ColoquinteParameters &p, bool observe, Force force = Force::None,
+                          uint64_t rnd = 0) {
   RunResult r;
   long long observed = 0;
   std::optional<PlacementCallback> cb;
@@ -242,6 +250,12 @@ static RunResult runSeq(Circuit c, const std::string &seq, const ColoquinteParam
     r.text += std::string(1, st) + ":" + res + " " + vc::solutionString(c) + "|";
   }
   return r;
+}
+
+// runs the stages on a copy
+static RunResult runSeq(Circuit c, const std::string &seq, const ColoquinteParameters &p, bool observe, Force force = Force::None,
+                        uint64_t rnd = 0) {
+  return runSeqOn(c, seq, p, observe, force, rnd);
 }
 
 static Circuit rebuild(const Circuit &c) {
@@ -668,6 +682,8 @@ static void orderCase(ChildOut &co, const std::string &id, vh::Rng &g, bool thor
   co.sample(id + ": " + hdr.str().substr(0, 300));
 }
 
+#include "c08_history.hpp"
+
 // number of linearisations of the two-task protocol (independent enumeration for the summary line):
 // main: launchX launchY getX getY callback; task t: readT writeT, after launch t, before get t
 static long long countSchedules() {
@@ -741,7 +757,10 @@ int main(int argc, char **argv) {
       "run order / other seed in between / 1-core and all-core affinity (+ forced x-first, y-first, random delays with hook H1) / "
       "fresh forked processes with byte-pattern dead memory; dead stack, helper-thread stacks and freed heap are overwritten with "
       "a different pattern before every run.  stream o: 2-3 jobs with distinct non-zero noise / seeds / knobs, each alone in a "
-      "fresh process and all of them in 2-4 orders in further fresh processes, per-job results compared.  All cases are "
+      "fresh process and all of them in 2-4 orders in further fresh processes, per-job results compared.  stream h: a random "
+      "history on one object (placement stages, report/computeRows/hpwl/toString, expandCellsToDensity, every public mutator; "
+      "h:op:* / h:shape:* keys) and then the same stage sequence on the object, on a twin rebuilt through the public setters "
+      "from the object's getters and on a copy, compared bitwise.  All cases are "
       "non-trivial (a placement stage really runs); distinct by canonical text of the input";
 #ifdef COLOQUINTE_VERIF_HAS_H1
   out.notes.push_back("hook H1 present: forced-order runs executed");
@@ -761,7 +780,7 @@ int main(int argc, char **argv) {
   out.impl << "summary schedules=" << countSchedules() << " independent=true conflicts=0 hb-matches-scheduler=true\n";
   std::vector<Job> jobs;
   auto parseId = [&](const std::string &id) {
-    if (id.size() < 3 || (id[0] != 'd' && id[0] != 'o')) return false;
+    if (id.size() < 3 || (id[0] != 'd' && id[0] != 'o' && id[0] != 'h')) return false;
     size_t us = id.find('_');
     if (us == std::string::npos) return false;
     jobs.push_back(mkJob(id[0], strtoull(id.substr(1, us - 1).c_str(), nullptr, 10), atoll(id.c_str() + us + 1)));
@@ -779,12 +798,17 @@ int main(int argc, char **argv) {
     // tier `perturb`: the sanitizer-free build driven by tools/props/C08.py (oracle only)
     long long n = a.thorough() ? 6000 : a.search() ? 800 : a.tier == "perturb" ? 1000 : a.tier == "perturbmore" ? 10000 : 400;
     long long no = a.thorough() ? 3000 : a.search() ? 600 : a.tier == "perturb" ? 500 : a.tier == "perturbmore" ? 5000 : 400;
+    long long nh = a.thorough() ? 12000 : a.search() ? 4000 : a.tier == "perturb" ? 1500 : a.tier == "perturbmore" ? 12000 : 1500;
     if (a.only >= 0) jobs.push_back(mkJob('d', a.seed, a.only));
     else {
-      // interleaved, so that both streams are reached early
-      for (long long k = 0; k < std::max(n, no); ++k) {
-        if (k < n) jobs.push_back(mkJob('d', a.seed, k));
-        if (k < no) jobs.push_back(mkJob('o', a.seed, k));
+      // interleaved, so that all streams are reached early
+      // development aid: C08_STREAMS=<letters of d o h> restricts the run to these streams
+      const char *only = getenv("C08_STREAMS");
+      auto on = [&](char s) { return !only || !*only || strchr(only, s); };
+      for (long long k = 0; k < std::max(std::max(n, no), nh); ++k) {
+        if (k < n && on('d')) jobs.push_back(mkJob('d', a.seed, k));
+        if (k < no && on('o')) jobs.push_back(mkJob('o', a.seed, k));
+        if (k < nh && on('h')) jobs.push_back(mkJob('h', a.seed, k));
       }
     }
   }
@@ -792,8 +816,9 @@ int main(int argc, char **argv) {
   bool th = a.thorough();
   // leave room for the two solver threads of each child
   fp::runJobs(out, jobs, (int)std::max(2l, std::min(16l, ncpu) * 3 / 4), [th](ChildOut &co, const Job &j) {
-    vh::Rng g = vh::Rng::forCase(j.seed ^ (j.stream == 'o' ? 0x6f6f6f6full : 0), j.k);
+    vh::Rng g = vh::Rng::forCase(j.seed ^ (j.stream == 'o' ? 0x6f6f6f6full : j.stream == 'h' ? 0x68686868ull : 0), j.k);
     if (j.stream == 'o') orderCase(co, j.id, g, th);
+    else if (j.stream == 'h') historyCase(co, j.id, g, th);
     else detCase(co, j.id, g, th);
   });
   out.finish();
